@@ -1249,11 +1249,54 @@ fn scale_run(wl: &str, run: usize, seed: u64) -> Vec<J> {
             max_rows = 1100;
             (header, supplied, prog)
         }
+        "noout" | "emptylayout" | "noin" => {
+            // degenerate shapes: a device without outputs, a driver that reports nothing, a device without inputs
+            let mut supplied = vec![];
+            if fam != "noin" {
+                supplied.push(Sig::input("A", 4, Val::N(1)));
+                supplied.push(Sig::input("K", 1, Val::N(0)));
+                supplied.push(if variant % 2 == 0 { Sig::input("B", 8, Val::Z) } else { Sig::input("B", 8, Val::N(200)) });
+            }
+            if fam != "noout" {
+                supplied.push(Sig::output("p", 4));
+                supplied.push(Sig::output("q", 8));
+            }
+            supplied.shuffle(&mut rng);
+            let mut header: Vec<String> = supplied.iter().filter(|_| rng.gen_bool(0.85)).map(|s| s.name.clone()).collect();
+            if header.is_empty() {
+                header.push(supplied[0].name.clone());
+            }
+            header.shuffle(&mut rng);
+            let mut prog = vec![];
+            let mk = |r: i64, rng: &mut StdRng| -> Vec<Entry> {
+                header
+                    .iter()
+                    .map(|h| match h.as_str() {
+                        "A" => if rng.gen_bool(0.2) { Entry::X } else { Entry::Num(r % 16) },
+                        "K" => if rng.gen_bool(0.5) { Entry::C } else { Entry::Num(r % 2) },
+                        "B" => if rng.gen_bool(0.3) { Entry::Z } else { Entry::Expr(Expr::bin("*", Expr::num(r), Expr::num(3))) },
+                        _ => match rng.gen_range(0..3) { 0 => Entry::X, 1 => Entry::Z, _ => Entry::Num(r % 4) },
+                    })
+                    .collect()
+            };
+            for r in 0..3 {
+                let es = mk(r, &mut rng);
+                prog.push(row(es));
+            }
+            let es = mk(5, &mut rng);
+            prog.push(Stmt::Loop { var: "i".into(), max: Expr::num(2), body: vec![row(es)] });
+            opt.mode = ValMode::InWidth;
+            opt.p_zx = 0.2;
+            (header, supplied, prog)
+        }
         f => panic!("no scale family {f}"),
     };
     let test = Test { header, supplied, prog };
     let printed = print_test(&test.header, &test.prog, &layout);
     let mut spec = policy_for(&test, &opt, seed, &mut rng, 6);
+    if fam == "emptylayout" {
+        spec.layout.clear();
+    }
     if fam == "manysigs" || fam == "manyvirt" || fam == "latefault" || fam == "longfeedback" {
         spec.mode = opt.mode;
         if fam == "longfeedback" {
